@@ -12,10 +12,12 @@ import time
 
 # Ad-hoc invocations (calibration aids) must never overwrite the committed evidence, which is
 # to come from the registered commands only: redirect them before sim.util reads the environment.
-if any(a in sys.argv for a in ("--runs", "--no-selftest", "--outside-region")) or \
-        any(a.startswith("--runs=") for a in sys.argv):
-    os.environ.setdefault("VERIF_EVIDENCE_DIR", "/tmp/verif_adhoc/evidence")
-    os.environ.setdefault("VERIF_REPLAY_DIR", "/tmp/verif_adhoc/replays")
+if any(a in sys.argv for a in ("--runs", "--no-selftest", "--outside-region", "--workers")) or \
+        any(a.startswith(("--runs=", "--workers=")) for a in sys.argv):
+    for _k, _v in (("VERIF_EVIDENCE_DIR", "/tmp/verif_adhoc/evidence"), ("VERIF_REPLAY_DIR", "/tmp/verif_adhoc/replays")):
+        if not os.environ.get(_k):
+            os.environ[_k] = _v
+            os.environ["VERIF_ADHOC_" + _k] = "1"
 
 from sim import driver
 from sim.report import out
@@ -23,8 +25,13 @@ from sim.util import canon, h64
 
 
 def replay_file(path):
-    with open(path) as f:
-        rp = json.load(f)
+    try:
+        with open(path) as f:
+            rp = json.load(f)
+        rp["property"], rp["expect"]["signature"]
+    except (OSError, ValueError, KeyError, TypeError) as e:
+        out("HARNESS-ERROR cannot read replay file %s: %r" % (path, e))
+        return 2
     plan = get_plan(rp["property"])
     res = plan.replay(rp)
     sigs = sorted({v["signature"] for v in res.get("violations", [])})
@@ -47,6 +54,8 @@ def replay_file(path):
 def get_plan(prop):
     from sim import plans
 
+    if prop not in plans.PLANS:
+        raise driver.HarnessError("no check for property %r (claimed: %s)" % (prop, ", ".join(sorted(plans.PLANS))))
     return plans.PLANS[prop]()
 
 
@@ -68,6 +77,9 @@ def main(argv=None):
         seed = int(os.environ.get("VERIF_SEED") or 0)
     except ValueError:
         seed = h64(os.environ.get("VERIF_SEED"))
+    for var in ("VERIF_REPO", "VERIF_EVIDENCE_DIR", "VERIF_REPLAY_DIR"):
+        if os.environ.get(var) and not os.environ.get("VERIF_ADHOC_" + var):
+            out("note: %s=%s overrides the default location" % (var, os.environ[var]))
     plan = get_plan(args.prop)
     t0 = time.time()
     try:
@@ -78,5 +90,20 @@ def main(argv=None):
     return rc
 
 
+def guarded_main():
+    """Any failure of the machinery itself is exit 2 with a HARNESS-ERROR line, never a
+    traceback whose exit code (1) could be mistaken for a verdict."""
+    try:
+        return main()
+    except SystemExit:
+        raise
+    except BaseException as e:  # noqa: B902
+        import traceback
+
+        traceback.print_exc()
+        out("HARNESS-ERROR %s: %s" % (type(e).__name__, str(e)[:300]))
+        return 2
+
+
 if __name__ == "__main__":
-    sys.exit(main())
+    sys.exit(guarded_main())
